@@ -749,7 +749,9 @@ func (rr *routerRun) makeInject(cl *sim.Cluster, r *rand.Rand) *sim.Msg {
 		}
 		m.From = outs[r.IntN(len(outs))]
 		victim := x.parts[r.IntN(len(x.parts))]
-		b, err := serde.MarshalCBOR(&envelope{From: uint64(victim), CorrelationID: x.full(), Payload: []byte("FOREIGN-forged-origin")})
+		// same payload as the plain non-participant injection: two different payloads from one
+		// sender under one identifier would be an equivocation made by the simulator itself
+		b, err := serde.MarshalCBOR(&envelope{From: uint64(victim), CorrelationID: x.full(), Payload: []byte("FOREIGN-not-a-participant")})
 		if err != nil {
 			panic(err)
 		}
